@@ -1650,6 +1650,16 @@ def classify(unit: Unit, res):
                 for sp in spans:
                     o = o or owner(sp['line_start'])
             if o is None:
+                # a failure inside a shadow macro (`unreachable!()`, `assert!`): the spans point at the macro definition in the
+                # prelude; the invocation site is in the expansion chain
+                for sp in spans:
+                    e = sp.get('expansion')
+                    while e and o is None:
+                        es = e.get('span') or {}
+                        if es.get('line_start'):
+                            o = owner(es['line_start'])
+                        e = es.get('expansion')
+            if o is None:
                 # an error inside the prelude itself
                 out['infra'].append('verification error outside any unit function: %s @ line %s' % (msg, prim[0]['line_start']))
                 continue
